@@ -328,6 +328,12 @@ def waitn_c11(tier):
     for p in four: J.append((p, 1 if tier == 'quick' else 2, 1 if 'd' in p.replace('dc', '').replace('dk', '') else 0))
     if tier == 'thorough':
         for p in three: J.append((p, 3, 1 if 'd' in p.replace('dc', '').replace('dk', '') else 0))
+    # a note with its own expiry (D1) earlier than the call's deadline (D2) in the set: the sleep must end when ANY object
+    # becomes ready, not at that expiry (seeded change C11f: minimum ready time computed against the wrong bound); judged
+    # by the idle rule: when no thread can run and only the clock is left, nobody may sleep with a ready object
+    for p in ['WceD|dc', 'WaeD|na', 'WcebD|dc', 'WeaD|na', 'WekD|dk', 'WeD']:
+        J.append((p, 3, 0)); J.append((p, 2, 2))
+    J.append(('WceD|Wce|dc', 2, 0))
     return J
 
 # ---------------- refcnt ----------------
